@@ -305,7 +305,7 @@ PROPS["C01"] = {
     "design_ref": "DESIGN.md §6 C01 (as-built note in the section-6 preamble)",
     "undecided": [
         "entry point compress_kmers_no_exts IS proved as a whole function (unit buildnode; R21: the HashSet<&K> built with iterator adapters is the seam KmerRefSet::of_keys - membership = being one of the keys, as many elements as keys when they are distinct): the graph it returns satisfies graph_post for a table that holds exactly the input k-mers, each with the extension set DERIVED from the key set (base b on a side exactly when the canonical form of the neighbour through b is a key) and a clone of its payload; like the slice entry point, under the hypothesis that this derived table meets the from-hash preconditions (backlinks_ok, canon_keys) in whatever slot order; distinct input k-mers are a precondition (its assert_eq! panics otherwise); observed while reading: it canonicalises with min_rc even when stranded",
-        "'an extension recorded for BOTH of them': proved for the k-mer the walk steps FROM (the base is in its extension set, and is its sole extension on that side) and as 'exactly one extension on the facing side' for the k-mer stepped TO; that this one facing extension names the first k-mer is a property of the input table (extension symmetry), which the code does not check",
+        "'an extension recorded for BOTH of them': proved for the k-mer the walk steps FROM (the base is in its extension set, and is its sole extension on that side) and as 'exactly one extension on the facing side' for the k-mer stepped TO; that this one facing extension names the first k-mer is a property of the input table (extension symmetry), which the code does not check - lemma_step_both (unit buildnode) proves it from step_rec for every table whose extensions are symmetric between present k-mers (hypothesis sym_occ, stronger than the entry point's precondition backlinks_ok)",
         "BaseGraph::finish is proved relative to boomphf's assumed contract (C19, unit graphfn); PackedDnaStringSet::add is generic over IntoIterator + Borrow - proved at two instances of its item source (unit packedset, R21): Vec<u8> / u8, and `&VecDeque<u8>` / &u8 - the one compress_kmers uses (`graph.add(&seq, ..)`, with `for b in sequence` read as `sequence.iter()`); in unit buildnode it is used by contract: the statement is about the node sequences handed to BaseGraph::add, the accessors that read them back are proved in unit packedset",
         "bounded cross-check of the whole pipeline is intractable: boomphf's MPHF construction keeps CBMC busy > 50 min even for 3 concrete keys"],
     "trust": VERUS_TRUST + GRAPH_TRUST + [SEAM_NOTE,
